@@ -7,6 +7,7 @@ from __future__ import annotations
 import os
 import random
 import re
+from typing import Any
 
 from harness.common import REPO
 
@@ -216,6 +217,39 @@ EOF_TAILS: list[str] = ['', '\n\t', '\n\t\t', '\n    ', '\n\t\t\t\t', '\n \t', '
 
 def with_tail(src: str, tail: str) -> str:
 	return src.rstrip('\n') + tail
+
+
+# depth stress: a well-formed, ill-typed program whose REPORTED node (the undefined name) sits `d` levels deep in the expression tree.
+# Node.__str__ walks the ancestor chain (≈ 4 Python frames per level): from ≈ 250 levels on, printing the node needs the renderer's fallback.
+DEPTH_KINDS: dict[str, Any] = {
+	'paren': lambda d: 'a = ' + '(' * d + 'undefined_name' + ')' * d,
+	'list': lambda d: 'a = ' + '[' * d + 'undefined_name' + ']' * d,
+	'minus': lambda d: 'a = ' + '-' * d + 'undefined_name',
+	'tuple': lambda d: 'a = ' + '(' * d + 'undefined_name' + ',)' * d,
+	'not': lambda d: 'a = ' + 'not ' * d + 'undefined_name',
+	'call': lambda d: 'a = ' + 'print(' * d + 'undefined_name' + ')' * d,
+	'index': lambda d: 'a = undefined_name' + '[0]' * d,
+	'attr': lambda d: 'a = undefined_name' + '.b' * d,
+}
+
+
+def depth_cases(thorough: bool) -> list[tuple[str, str]]:
+	"""(mode or 'both', source)"""
+	out: list[tuple[str, str]] = []
+	if thorough:
+		for kind, f in DEPTH_KINDS.items():
+			for d in (10, 100, 200, 250, 300, 450, 600):
+				if (kind, d) in (('attr', 600), ('call', 300), ('call', 450)):
+					continue  # seconds of CPU each without reaching a different site
+				out.append(('both', f(d) + '\n'))
+	else:
+		for kind in ('paren', 'list', 'minus', 'tuple'):
+			for d in (10, 100, 250, 300, 600):
+				out.append(('in-memory', DEPTH_KINDS[kind](d) + '\n'))
+			out.append(('on-disk', DEPTH_KINDS[kind](300) + '\n'))
+		for kind in ('not', 'index'):
+			out.append(('in-memory', DEPTH_KINDS[kind](300) + '\n'))
+	return out
 
 
 def fixture_programs() -> list[tuple[str, str]]:
